@@ -432,7 +432,9 @@ Record vopts := mkVO {
   o_wrapper : text;
   o_deco : bool;
   o_behave : behave;
-  o_csrf : bool              (* require_csrf=True *)
+  o_csrf : bool;             (* require_csrf=True *)
+  o_vd_perm : option text    (* getattr(view, '__view_defaults__', {}).get('permission') when the view is a class: the
+                                @view_defaults of the class itself or of a base class (oracle: computed with getattr) *)
 }.
 
 Inductive stmt :=
@@ -449,10 +451,15 @@ Inductive action := APolicy | ADefPerm (p : text) | AView (o : vopts) (b : body)
 
 Definition force (f : bool * option text) (o : vopts) : vopts :=
   mkVO (o_tag o) (o_req o) (o_ctx o) (o_name o) (o_kw o) (snd f) (o_isexc o) (fst f) (o_wrapper o) (o_deco o)
-       (o_behave o) (forced_require_csrf && o_csrf o).
+       (o_behave o) (forced_require_csrf && o_csrf o) (o_vd_perm o).
 Definition with_perm (p : option text) (o : vopts) : vopts :=
   mkVO (o_tag o) (o_req o) (o_ctx o) (o_name o) (o_kw o) p (o_isexc o) (o_exc_only o) (o_wrapper o) (o_deco o)
-       (o_behave o) (o_csrf o).
+       (o_behave o) (o_csrf o) (o_vd_perm o).
+
+(* the @viewdefaults decorator around add_view: defaults = getattr(view, '__view_defaults__', {}).copy();
+   defaults.update(kw) -- a permission= argument wins, otherwise the class's (possibly inherited) default applies *)
+Definition viewdefaults (o : vopts) : vopts :=
+  with_perm (match o_perm o with Some p => Some p | None => o_vd_perm o end) o.
 
 (* what the directive does when it is written; st = the registry state at that moment *)
 Definition directive (st : regstate) (s : stmt) : option action :=
@@ -462,7 +469,7 @@ Definition directive (st : regstate) (s : stmt) : option action :=
   | SDefPerm p truthy via_ctor =>
       if via_ctor && negb (ctor_defperm_is_none_test || truthy) then None else Some (ADefPerm p)
   | SRoute => None
-  | SView o => Some (AView o (Plain (o_behave o)))
+  | SView o => Some (AView (viewdefaults o) (Plain (o_behave o)))
   | SForbidden o => Some (AView (force forced_forbidden o) (Plain (o_behave o)))
   | SNotFound o false => Some (AView (force forced_notfound o) (Plain (o_behave o)))
   | SNotFound o true =>
@@ -525,7 +532,7 @@ Definition commit (s : cstate) (batch : list stmt) : cstate :=
    WebobWSGIHTTPException, committed before any user statement (no policy, no default permission) *)
 Definition builtin_tag : N := 4500%N.
 Definition builtin_opts (t irequest ictx : N) : vopts :=
-  mkVO t irequest ictx [] [] None true false [] false BReturn false.
+  mkVO t irequest ictx [] [] None true false [] false BReturn false None.
 Definition init_state (irequest ier iwsgi : N) : cstate :=
   fold_left exec_action
             [AView (builtin_opts builtin_tag irequest ier) (Plain BReturn);
@@ -573,7 +580,7 @@ Definition strip_npr (o : option text) : option text :=
    no-permission-required marker meaning none".  as_exc: the view is being used as an exception view *)
 Definition spec_eff (prog : list stmt) (s : stmt) (as_exc : bool) : option text :=
   match s with
-  | SView o => match o_perm o with
+  | SView o => match o_perm (viewdefaults o) with            (* explicit: the argument, else the class's @view_defaults *)
                | Some p => strip_npr (Some p)
                | None => if o_exc_only o || as_exc then None else strip_npr (declared_defperm prog)
                end
@@ -713,16 +720,40 @@ Fixpoint j6 (ov : list N) (tr : trace) : bool :=
   | _ :: r => j6 ov r
   end.
 
-(* bit mask of the failed clauses: 1 mediation, 2 refusal, 4 refusal inside exception rendering,
-   8 granted check not on behalf of the next view, 16 blocked without refusal, 32 stray check,
-   128 the callable of an overridden statement ran.  ov = overridden_tags of the commits *)
-Definition judge (prog : list stmt) (ov : list N) (tr : trace) (fin : final) : N :=
-  ((if j1 prog [] tr then 0 else 1) + j2 fin false false tr + (if j3 prog fin tr then 0 else 8)
-   + (if j4 prog fin None false tr then 0 else 16) + (if j5 prog tr then 0 else 32)
-   + (if j6 ov tr then 0 else 128))%N.
-
 (* observation level: events name the statement (tag of the registration div 2) *)
 Definition stag (rt : N) : N := if N.leb (2 * builtin_tag) rt then builtin_tag else N.div rt 2.
+
+(* J7 the view that serves the request is a most specific qualifying one: C03's declarative specification [spec_winners]
+   (earlier request interface, earlier context interface, same slot with more predicates; a later registration of the same
+   slot and predicates replaces the earlier one) evaluated on the registrations of the configuration.  A stale lookup that
+   keeps serving a less specific OPEN view where the configuration now holds a more specific PROTECTED one fails here. *)
+Definition main_request (q : rq5) : request :=
+  let b := q_base q in
+  mkReq (q_method b) (q_params b) (q_headers b) (q_xhr b) (q_matchdict b) (q_auth b) (q_upath b) (q_lineage b)
+        (q_has_name b) (q_regex b) (q_accept_q b) (q_truth b) (q_main_sro q) (q_res_sro q) (q_view_name b).
+Definition all_regs (D : list (N * dview)) : list reg := rev (map (fun kd => d_reg (snd kd)) D).   (* registration order *)
+Definition winner_tags (D : list (N * dview)) (q : rq5) : list N :=
+  map (fun v => stag (r_tag v)) (spec_winners view_classifier (all_regs D) (main_request q)).
+Fixpoint first_body (tr : trace) : option N :=          (* the callable (or its decorator) that ran first in the main phase *)
+  match tr with
+  | [] => None
+  | Body t _ :: _ | Deco t _ :: _ => Some t
+  | Raised _ :: _ => None
+  | _ :: r => first_body r
+  end.
+Definition j7 (winners : list N) (tr : trace) : bool :=
+  match first_body tr with Some t => memN t winners | None => true end.
+
+(* bit mask of the failed clauses: 1 mediation, 2 refusal, 4 refusal inside exception rendering,
+   8 granted check not on behalf of the next view, 16 blocked without refusal, 32 stray check,
+   128 the callable of an overridden statement ran, 256 the view that ran first is not a most specific qualifying one.
+   ov = overridden_tags of the commits, winners = winner_tags of the configuration for this request *)
+Definition judge (prog : list stmt) (ov winners : list N) (tr : trace) (fin : final) : N :=
+  ((if j1 prog [] tr then 0 else 1) + j2 fin false false tr + (if j3 prog fin tr then 0 else 8)
+   + (if j4 prog fin None false tr then 0 else 16) + (if j5 prog tr then 0 else 32)
+   + (if j6 ov tr then 0 else 128) + (if j7 winners tr then 0 else 256))%N.
+
+(* observation level: events name the statement (tag of the registration div 2) *)
 Definition proj_event (e : event) : list event :=
   match e with
   | Body rt c => if N.leb (2 * builtin_tag) rt then [] else [Body (stag rt) c]
@@ -770,11 +801,12 @@ Definition get_behave (v : val) : option behave :=
   end.
 Definition get_vopts (v : val) : option vopts :=
   match v with
-  | VL [tg; rq; cx; VT nm; kw; pm; ie; eo; VT wr; dc; bh; cs] =>
+  | VL [tg; rq; cx; VT nm; kw; pm; ie; eo; VT wr; dc; bh; cs; vd] =>
       olet tg := get_N tg in olet rq := get_N rq in olet cx := get_N cx in olet kw := get_kw kw in
       olet pm := get_opt get_text pm in olet ie := get_bool ie in olet eo := get_bool eo in
       olet dc := get_bool dc in olet bh := get_behave bh in olet cs := get_bool cs in
-      Some (mkVO tg rq cx nm kw pm ie eo wr dc bh cs)
+      olet vd := get_opt get_text vd in
+      Some (mkVO tg rq cx nm kw pm ie eo wr dc bh cs vd)
   | _ => None
   end.
 Definition get_stmt (v : val) : option stmt :=
@@ -849,7 +881,7 @@ Definition put_dtab (prog : list stmt) (D : list (N * dview)) : val :=
 (* case   = [0; irequest; ier; iwsgi; batches; grants; requests]
    answer = [dtab; [[projected trace; projected final; judge mask of that observation; variant_okb;
              regenerated program = reference model on this input] per request]]
-   judge  = [1; batches; [[trace; final] per request]]  ->  [mask per request]  (run on the implementation's log) *)
+   judge  = [1; irequest; ier; iwsgi; batches; [[request; trace; final] per request]]  ->  [mask per request]  (run on the implementation's log) *)
 Definition run_C05 (v : val) : val :=
   ret_or_bad (
     match v with
@@ -868,7 +900,7 @@ Definition run_C05 (v : val) : val :=
                                  let '(gtr, gfin) := gen_router (cs_R s) (cs_D s) gs q in   (* the regenerated request path *)
                                  let tr' := proj_trace tr in
                                  let fin' := proj_final fin in
-                                 VL [VL (map put_event tr'); put_final fin'; vN (judge prog (overridden_tags bs) tr' fin');
+                                 VL [VL (map put_event tr'); put_final fin'; vN (judge prog (overridden_tags bs) (winner_tags (cs_D s) q) tr' fin');
                                      vbool (variant_okb prog tr); vbool (trace_eqb gtr tr && final_eqb gfin fin)]
                              | OpRender sec q =>            (* outside the property: correspondence only *)
                                  let '(tr, o) := run_render s gs sec q in
@@ -877,13 +909,17 @@ Definition run_C05 (v : val) : val :=
                                  VL [VL (map put_event (proj_trace tr)); put_res o; vN 0%N; vbool true;
                                      vbool (trace_eqb gtr tr && res_eqb go o)]
                              end) rqs)])
-    | VL [VI 1%Z; bs; obs] =>
+    | VL [VI 1%Z; irq; ier; iwsgi; bs; obs] =>
+        olet irq := get_N irq in olet ier := get_N ier in olet iwsgi := get_N iwsgi in
         olet bs := get_list_of (get_list_of get_stmt) bs in
         olet obs := get_list_of (fun o => match o with
-                                          | VL [tr; fin] => olet tr := get_list_of get_event tr in
-                                                            olet fin := get_final fin in Some (tr, fin)
+                                          | VL [rq; tr; fin] => olet rq := get_rq5 rq in
+                                                                olet tr := get_list_of get_event tr in
+                                                                olet fin := get_final fin in Some (rq, tr, fin)
                                           | _ => None end) obs in
+        let s := configure irq ier iwsgi bs in
         let prog := concat bs in
-        Some (VL (map (fun tf => vN (judge prog (overridden_tags bs) (fst tf) (snd tf))) obs))
+        Some (VL (map (fun x => let '(rq, tr, fin) := x in
+                                vN (judge prog (overridden_tags bs) (winner_tags (cs_D s) rq) tr fin)) obs))
     | _ => None
     end).
